@@ -235,9 +235,11 @@ func bbMachine(rt *rapid.T, r *ev.Rec, o bbMachineOpts, c05 *c05State) (w *bbWor
 	}
 
 	// stage points for which the box was observed (at a moment without any box goroutine in flight and with the voteproof
-	// channel drained) to refuse a fresh valid ballot of a suffrage node that had not voted there, as old: the box does not
-	// vote on them any more, and because the last point only moves forward it never will again. value: the observation.
-	stale := map[bbKey]string{}
+	// channel drained) to refuse a fresh valid ballot of a suffrage node that had not voted there, as old, while its last
+	// point was a majority and it had no suffrage-confirm record of that height. The position of the box moves back only to
+	// take a suffrage-confirm result of the same height (property C06), so the observation holds as long as no suffrage-confirm
+	// ballot of that height is handed to Vote and the last point of that height is not set from outside; it is dropped then.
+	stale := &bbStale{m: map[bbKey]bbStaleObs{}}
 
 	judge := func(vps []base.Voteproof) {
 		for _, vp := range vps {
@@ -250,9 +252,9 @@ func bbMachine(rt *rapid.T, r *ev.Rec, o bbMachineOpts, c05 *c05State) (w *bbWor
 			counted++
 
 			// (1b) handed out after the box had stopped voting on its stage point (judged by event order)
-			if obs, found := stale[bbKey{Point: vp.Point().String(), SC: bbVPIsSC(vp)}]; found {
+			if obs, found := stale.get(w, bbKey{Point: vp.Point().String(), SC: bbVPIsSC(vp)}); found {
 				r.Violation(rt, "emitted-for-point-no-longer-voted", "n=%d t=%v: voteproof for %v was handed out after the box had stopped voting on that stage point (%s)\n  vp=%s\n  last point now=%s\n  history:\n    %s",
-					w.n, w.th, vp.Point(), obs, bbDescVP(vp), bbDescLast(w.box.LastPoint()), strings.Join(w.history, "\n    "))
+					w.n, w.th, vp.Point(), obs.msg, bbDescVP(vp), bbDescLast(w.box.LastPoint()), strings.Join(w.history, "\n    "))
 			}
 		}
 	}
@@ -366,6 +368,8 @@ func bbMachine(rt *rapid.T, r *ev.Rec, o bbMachineOpts, c05 *c05State) (w *bbWor
 
 				vp = w.drawACCEPTVP(h, rd)
 			}
+
+			stale.dropHeight(h)
 
 			ok := w.box.SetLastPointFromVoteproof(vp)
 			w.history = append(w.history, fmt.Sprintf("setLastPoint %v majority=%v -> %v", vp.Point(), vp.Result() == base.VoteResultMajority, ok))
@@ -616,6 +620,51 @@ func bbSeveralRounds(t *rapid.T, w *bbWorld, check func()) {
 
 const bbHeldMark = "held-then-moved height"
 
+// bbStale: observations "the box does not vote on this stage point any more" (see bbMachine) and when they stop to hold.
+type bbStaleObs struct {
+	msg    string
+	height int64
+	sc     int // suffrage-confirm ballots of the height handed to Vote until the observation
+}
+
+type bbStale struct{ m map[bbKey]bbStaleObs }
+
+func (s *bbStale) put(w *bbWorld, k bbKey, h int64, msg string) {
+	w.mu.Lock()
+	defer w.mu.Unlock()
+
+	s.m[k] = bbStaleObs{msg: msg, height: h, sc: w.scDelivered[h]}
+}
+
+// get drops the observation when a suffrage-confirm ballot of its height was handed to Vote after it.
+func (s *bbStale) get(w *bbWorld, k bbKey) (bbStaleObs, bool) {
+	obs, found := s.m[k]
+	if !found {
+		return obs, false
+	}
+
+	w.mu.Lock()
+	now := w.scDelivered[obs.height]
+	w.mu.Unlock()
+
+	if now != obs.sc {
+		delete(s.m, k)
+
+		return obs, false
+	}
+
+	return obs, true
+}
+
+// dropHeight: the last point of the height is about to be set from outside (SetLastPoint*).
+func (s *bbStale) dropHeight(h int64) {
+	for k, obs := range s.m {
+		if obs.height == h {
+			delete(s.m, k)
+		}
+	}
+}
+
 func bbVPIsSC(vp base.Voteproof) bool {
 	sfs := vp.SignFacts()
 
@@ -664,10 +713,12 @@ func bbQuiet(budget time.Duration) bool {
 // for a while as a started daemon, as it does in a node, so that its ticker counts the held records. Height, round, voters,
 // facts, the signing of the expel, the way the last point moves and the moments in between are drawn.
 //
-// Oracle clause added with it (first clause of the statement): once the box, with nothing in flight and its channel drained,
-// refuses a fresh valid ballot of a suffrage node that has not voted at a stage point as old, it does not vote on that point
-// any more; a voteproof it counted for that point and hands out later is not for a stage point it is voting on.
-func bbHeldThenMoved(t *rapid.T, w *bbWorld, check func(), judge func([]base.Voteproof), stale map[bbKey]string) {
+// Oracle clause added with it (first clause of the statement): once the box, with nothing in flight, its channel drained, its
+// last point a majority and no suffrage-confirm record of the height, refuses a fresh valid ballot of a suffrage node that
+// has not voted at a stage point as old, it does not vote on that point until a suffrage-confirm result of the height takes
+// its position back (see bbStale for when the observation is dropped); a voteproof it counted for that point and hands out
+// while the observation holds is not for a stage point it is voting on.
+func bbHeldThenMoved(t *rapid.T, w *bbWorld, check func(), judge func([]base.Voteproof), stale *bbStale) {
 	h := int64(rapid.IntRange(33, 35).Draw(t, "heldHeight"))
 	r0 := uint64(rapid.IntRange(0, 1).Draw(t, "heldRound"))
 
@@ -747,6 +798,7 @@ func bbHeldThenMoved(t *rapid.T, w *bbWorld, check func(), judge func([]base.Vot
 	case 0:
 	case 1, 2:
 		vp := w.initVP(h, r0)
+		stale.dropHeight(h)
 		ok := w.box.SetLastPointFromVoteproof(vp)
 		w.history = append(w.history, fmt.Sprintf("setLastPoint %v majority=true -> %v", vp.Point(), ok))
 	default:
@@ -771,6 +823,7 @@ func bbHeldThenMoved(t *rapid.T, w *bbWorld, check func(), judge func([]base.Vot
 	switch rapid.IntRange(0, 2).Draw(t, "heldMove") {
 	case 0:
 		vp := gen.FullACCEPTVoteproof(w.acceptFact(h, r0, 0, nil), w.locals[:w.n], w.th, nil)
+		stale.dropHeight(h)
 		ok := w.box.SetLastPointFromVoteproof(vp)
 		w.history = append(w.history, fmt.Sprintf("setLastPoint %v majority=true -> %v", vp.Point(), ok))
 	default:
@@ -826,8 +879,13 @@ func bbHeldThenMoved(t *rapid.T, w *bbWorld, check func(), judge func([]base.Vot
 			d := bbBallotDesc{Height: h, Round: r0 + 1, Kind: "init", Node: probe, ExpelBy: "full"}
 
 			if _, valid := w.cachedBallot(d); valid && !vote(d) {
-				if last := w.box.LastPoint(); !last.IsZero() && !isaac.IsNewBallot(last, p, false) {
-					stale[pkey] = fmt.Sprintf("before, with no ballotbox goroutine in flight and the channel drained, Vote refused the ballot %v of a node that had not voted there, last point then=%s", d, bbDescLast(last))
+				scRecord := false // hook H1: a suffrage-confirm record of this height could still bring the position back
+				for _, rec := range w.box.VerifRecords() {
+					scRecord = scRecord || (rec.ISC && rec.Point.Height() == base.Height(h))
+				}
+
+				if last := w.box.LastPoint(); !last.IsZero() && last.IsMajority() && !scRecord && !isaac.IsNewBallot(last, p, false) {
+					stale.put(w, pkey, h, fmt.Sprintf("before, with no ballotbox goroutine in flight, the channel drained and no suffrage-confirm record of the height, Vote refused the ballot %v of a node that had not voted there, last point then=%s", d, bbDescLast(last)))
 					w.history = append(w.history, fmt.Sprintf("observed: %v is not voted on any more (last point %s)", p, bbDescLast(last)))
 				}
 			}
@@ -870,7 +928,7 @@ wait:
 		case vp := <-w.box.Voteproof():
 			got = append(got, vp)
 
-			if _, found := stale[bbKey{Point: vp.Point().String(), SC: bbVPIsSC(vp)}]; found || (!q.IsZero() && vp.Point().Equal(q)) {
+			if _, found := stale.get(w, bbKey{Point: vp.Point().String(), SC: bbVPIsSC(vp)}); found || (!q.IsZero() && vp.Point().Equal(q)) {
 				break wait
 			}
 		case <-deadline.C:
@@ -896,7 +954,8 @@ func TestC04(t *testing.T) {
 	r.Floor(20)
 	r.Assume("every ballot given to Vote satisfies bl.IsValid(networkID) (launch validates before voting)",
 		"one suffrage for all heights; embedded voteproofs are valid and built by the generator",
-		"emission is asynchronous (Vote counts in a goroutine): the oracle is per-voteproof and order-insensitive")
+		"emission is asynchronous (Vote counts in a goroutine): the oracle is per-voteproof and order-insensitive, except clause (1b) which is judged by event order from a moment without any ballotbox goroutine",
+		"clause (1b): the position of the box (last point) moves back only to take a suffrage-confirm result of the same height (property C06); an observation 'the box refuses a fresh ballot for this point as old' is recorded only while the last point is a majority and the box holds no suffrage-confirm record of that height (hook H1), and is dropped when a suffrage-confirm ballot of that height is handed to Vote or SetLastPoint* is called with a point of that height afterwards")
 
 	r.Checks(150, 8000)
 	r.Steps(30)
